@@ -38,7 +38,22 @@ def Alg.isBls : Alg → Bool
 /-- failing operations whose error value is formatted (`{}`, `{:?}`) -/
 inductive ErrCase
   | secretBytesLen | jwkMismatch | jwkGarbage | badRawKey | wrongPassKey | decryptBadTag
+  -- errors of the storage crate taken directly (its own `Display` / `source`), of the crypto crate, and of the top-level crate with a cause
+  | storageGarbageFile | topGarbageFile | storageOnDirectory | storageMissingDir | storageUnknownScheme | storageBadParam
+  | storageKindOnly | cryptoJwkGarbage | cryptoSecretLen | cryptoBadTag
 deriving DecidableEq, Repr, Inhabited
+
+/-- length of the `source()` chain of the error each scenario returns — where a cause survives is a fact of the code:
+    `From<CryptoError>` (both crates) keeps the message only; `From<StorageError>` moves the cause; sqlx's `Database` error has the
+    driver's error as its own source (2 links); `ParseIntError` / `serde_json_core` errors are leaves (1 link) -/
+def ErrCase.chain : ErrCase → Nat
+  | .secretBytesLen | .jwkMismatch | .jwkGarbage | .badRawKey | .decryptBadTag => 0
+  | .wrongPassKey => 1                 -- "Error decrypting profile key" caused by the crypto error
+  | .storageGarbageFile | .topGarbageFile | .storageOnDirectory | .storageMissingDir | .storageKindOnly => 2
+  | .storageUnknownScheme => 0
+  | .storageBadParam => 1
+  | .cryptoJwkGarbage => 1
+  | .cryptoSecretLen | .cryptoBadTag => 0
 
 /-- the public secret-bearing types of the three crates -/
 inductive Ty
@@ -58,6 +73,7 @@ inductive Ty
   | encrypted              -- src/kms/enc.rs: derive; buffer : SecretBytes
   | keyEntry               -- src/kms/entry.rs: derive; params.data : Option<SecretBytes>
   | store | session        -- src/store.rs: derive over the backend handle (impl Debug for SqliteBackend)
+  | scan                   -- askar-storage entry.rs: impl Debug for Scan: "Scan { page_size }"
   | error (c : ErrCase)    -- error.rs (three crates): message text + cause
 deriving DecidableEq, Repr, Inhabited
 
@@ -168,6 +184,7 @@ def debugFmt (c : FmtCfg) : Ty → List Piece
   | .keyEntry => [.lit "KeyEntry { ", .pub, .lit ", params: KeyParams { …, data: Some(<secret>) }, … }"]
   | .store => [.lit "Store(AnyBackend(WrapBackend(SqliteBackend { ", .pub, .lit " })))"]
   | .session => [.lit "Session(AnyBackendSession(DbSession { … }))"]
+  | .scan => [.lit "Scan { page_size: ", .pub, .lit " }"]
   | .error _ => [.lit "Error { kind: ", .pub, .lit ", cause: …, message: … }"]
 
 /-- decidable classification: does `Debug` of this type depend on the secret part? -/
@@ -178,11 +195,13 @@ def leaky (c : FmtCfg) (t : Ty) : Bool := (debugFmt c t).any Piece.usesSecret
 inductive LogSite
   | anyOptions        -- prints `Options` with `{:?}`
   | label             -- every other site: constant text, handles, algorithm names, counters
+  | ffiLabel          -- src/ffi/*.rs `trace!` / `debug!` / `info!`: constant text, `Handle(0x…)` / `StoreHandle(n)`, algorithm names
 deriving DecidableEq, Repr
 
 def LogSite.leaky (c : FmtCfg) : LogSite → Bool
   | .anyOptions => Askar.SecretFmt.leaky c (Ty.options false) || Askar.SecretFmt.leaky c (Ty.options true)
   | .label => false
+  | .ffiLabel => false
 
 /-- scenario of a log capture: which sites fire, and whether the URI carried credentials -/
 structure Scenario where
@@ -191,6 +210,79 @@ structure Scenario where
 
 def Scenario.leaks (c : FmtCfg) (s : Scenario) : Bool :=
   s.uriHasCredentials && s.sites.any (LogSite.leaky c)
+
+/-! ### error TEXT: `Display`, `Debug`, the `source()` chain, and the C API's JSON
+
+An error of any of the three crates is `{ kind, cause, message }`; `Display` writes the message (or, without one, the kind's text) and
+then "\nCaused by: " and the cause's `Display` (askar-storage/src/error.rs, askar-crypto/src/error.rs, src/error.rs — the same
+body three times); `Debug` is derived; `source()` is the cause; `askar_get_current_error` is `{"code", "message": to_string()}`.
+An error WITH its chain is the list of its links, outermost first (foreign causes — sqlx, io, `ParseIntError`, serde_json_core — are
+links whose message is their own text). -/
+
+def Tok.isSecret : Tok → Bool
+  | .text _ => false
+  | _ => true
+
+structure ErrLink where
+  kind : String
+  message : Option (List Tok)
+
+def ErrLink.head (l : ErrLink) : List Tok := l.message.getD [.text l.kind]
+
+def errDisplay : List ErrLink → List Tok
+  | [] => []
+  | [l] => l.head
+  | l :: l' :: rest => l.head ++ [.text "\nCaused by: "] ++ errDisplay (l' :: rest)
+
+def errDebug : List ErrLink → List Tok
+  | [] => [.text "None"]
+  | l :: rest =>
+    [.text ("Error { kind: " ++ l.kind ++ ", cause: ")] ++ errDebug rest ++ [.text ", message: "] ++ l.message.getD [.text "None"] ++ [.text " }"]
+
+/-- `askar_get_current_error`: code and `err.to_string()` -/
+def errJson (c : List ErrLink) : List Tok := [.text "{\"code\":…,\"message\":\""] ++ errDisplay c ++ [.text "\"}"]
+
+/-- every text the run looks at: `{}` and `{:?}` / `{:#?}` of the error and of every error on its `source()` chain, and the JSON -/
+def errTexts : List ErrLink → List (List Tok)
+  | [] => []
+  | l :: rest => errDisplay (l :: rest) :: errDebug (l :: rest) :: errTexts rest
+
+/-- the messages of a chain -/
+def chainMessages (c : List ErrLink) : List Tok := c.flatMap fun l => l.message.getD []
+
+/-! ### the C API's logger (`src/ffi/log.rs`, `CustomLogger::log`) -/
+
+structure LogRecord where
+  target : List Tok
+  message : List Tok
+  modulePath : Option (List Tok)
+  file : Option (List Tok)
+
+/-- what the C callback receives (`None` when the logger is disabled or the `enabled` callback says no): the record's own target,
+    formatted message, module path and file (NULL when absent) — nothing is added -/
+def customLoggerForward (enabled : Bool) (r : LogRecord) : Option (List (List Tok)) :=
+  if enabled then some [r.target, r.message, r.modulePath.getD [], r.file.getD []] else none
+
+/-! ### observations: types OUTSIDE the property's list
+
+"The Debug and Display output of keys, pass keys, secret buffers, store handles and errors …": the following print record contents or
+bytes BY DESIGN and are not in that list; the run records what they print as observations (`obs:*` counters), never as failures. -/
+inductive ObsTy
+  | secretBytesAsHex      -- `SecretBytes::as_hex()`: `HexRepr` — `Display` is the hex text, the derived `Debug` the byte list (callers: tests only)
+  | entryTagPlaintext     -- `impl Debug for EntryTag`: Plaintext(name, value)
+  | entryTagEncrypted     -- … Encrypted(name, value): the tag value in the clear (it is encrypted at rest, not in memory)
+  | entryTags             -- `Entry` (derive): `tags: [Encrypted(name, value)]` next to `value: <secret>`
+  | tagFilter             -- `TagFilter` (derive over the WQL query): names and values
+deriving DecidableEq, Repr, Inhabited
+
+def obsFmt : ObsTy → List Piece
+  | .secretBytesAsHex => [.secHex]
+  | .entryTagPlaintext => [.lit "Plaintext(", .pub, .lit ", \"", .secText, .lit "\")"]
+  | .entryTagEncrypted => [.lit "Encrypted(", .pub, .lit ", \"", .secText, .lit "\")"]
+  | .entryTags => [.lit "Entry { ", .pub, .lit ", value: <secret>, tags: [Encrypted(", .pub, .lit ", \"", .secText, .lit "\")] }"]
+  | .tagFilter => [.lit "TagFilter { query: Eq(", .pub, .lit ", \"", .secText, .lit "\") }"]
+
+def obsLeaky (t : ObsTy) : Bool := (obsFmt t).any Piece.usesSecret
 
 /-! Key objects on the heap (`Box<AnyKey>` inside `LocalKey`, `SecretBytes`, owned `PassKey`): every one of them has a
     `Drop` that zeroizes (`ArrayKey`, `Ed25519KeyPair`, `BlsSecretKey`, `PassKey`, the RustCrypto / dalek secret types),
